@@ -10,6 +10,10 @@ import (
 	"os"
 	"sort"
 	"testing"
+
+	"pgregory.net/rapid"
+
+	"verif/internal/hx"
 )
 
 func TestSurvey(t *testing.T) {
@@ -25,13 +29,13 @@ func TestSurvey(t *testing.T) {
 	total := 0
 	run := func(c Case) bool {
 		total++
-		if f := runCase(c); f != nil {
+		if f := runCase(c); f != nil && !hx.Tolerated(f) {
 			e := hist[f.Sig]
 			if e == nil {
 				e = &ent{first: f.Msg, short: c.Src}
 				hist[f.Sig] = e
 			}
-			if len(c.Src) < len(e.short) {
+			if len(c.Src) < len(e.short) && c.Kind != "files" {
 				e.short, e.first = c.Src, f.Msg
 			}
 			e.n++
@@ -41,7 +45,15 @@ func TestSurvey(t *testing.T) {
 	for _, s := range directed {
 		run(Case{Kind: "directed", Src: s})
 	}
-	if os.Getenv("C08_SURVEY") != "directed" {
+	if os.Getenv("C08_SURVEY") == "prog" {
+		rapid.Check(t, func(rt *rapid.T) {
+			if rapid.IntRange(0, 11).Draw(rt, "mode") == 0 {
+				run(genFiles(rt))
+			} else {
+				run(genProg(rt))
+			}
+		})
+	} else if os.Getenv("C08_SURVEY") != "directed" {
 		exprCases(run)
 		for _, s := range loadCorpus(t) {
 			run(Case{Kind: "corpus", Src: s})
